@@ -16,38 +16,38 @@ P = {
          "Structural necessary conditions, decided for every execution of the enumerated constructs: no edge-creating site joins label-incompatible vertices (type identical or provider-implements-consumer under an interface-kind guard; subtype equal or empty on one side; equal names between named vertices); vertex identity hashes every label; label fields immutable after construction; values routed by the vertex's own label in the path walk, output mapper and executor; no fabricated value outside the redefine flag; the implements rule is applied to every candidate without an unreviewed restriction; converter outputs mapped onto the graph are exactly the Result the executor returned for that step, and only Call and the resolver reach the executor; no object that lives across calls holds a per-call value store (a value supplied to one call cannot be injected into another); an argument-map entry filled from a vertex is filled from the vertex its key names. The behaviour itself (which value a re-used vertex carries across successive walks, flows through reflect containers) is not decided.",
          "Trusted: go/ssa + go/types (x/tools v0.29.0), Go map semantics, reflect. Flow-insensitive field reasoning is licensed by the IMMUT rule checked in the same run.", "§4 EDGE/HASH/IMMUT/WALK/OUTMAP/ARGPOP/SIBLING/ORDER/FAB/BIND/SHARED-E, §5 C01"),
  "C02": ("static analysis: dominance/error-flow rules on the Call pipeline, must-pass guards around the unsatisfied report, termination witness for the resolver",
-         "Decided structurally: target and converters execute only behind nil-error checks of option building, graph building and resolution; pruned requirements always yield the dedicated error; the executor's last-resort guard; every return of Call is an error Result on a non-nil-error branch or exactly the executor's Result after resolution (no memoised shortcut past resolution); edge rules join only label-compatible vertices (an unsatisfiable target cannot look satisfiable through a wrong edge); cyclic converter dependencies cannot recurse unboundedly. Not decided: that pruning computes exactly the least fixpoint of derivable values.",
-         "Trusted: go/ssa, reflect.Value.Call returns what the function returned.", "§4 ERRFLOW/UNSAT/TERM/EDGE/EXEC-X8, §5 C02"),
+         "Decided structurally: target and converters execute only behind nil-error checks of option building, graph building and resolution; pruned requirements always yield the dedicated error; the executor's last-resort guard; every return of Call is an error Result on a non-nil-error branch or exactly the executor's Result after resolution (no memoised shortcut past resolution); edge rules join only label-compatible vertices (an unsatisfiable target cannot look satisfiable through a wrong edge); cyclic converter dependencies cannot recurse unboundedly; no object that lives across calls holds a per-call value store (a value of an earlier call cannot make an unsatisfiable target look satisfiable). Not decided: that pruning computes exactly the least fixpoint of derivable values.",
+         "Trusted: go/ssa, reflect.Value.Call returns what the function returned.", "§4 ERRFLOW/UNSAT/TERM/EDGE/EXEC-X8/SHARED-E, §5 C02"),
  "C03": ("static analysis: abstract cost model (Bellman–Ford lower bound over the extracted edge-weight table) plus direct-use rule recognition",
          "Decided: an exactly matching supplied named value is used directly (direct-use rule in the resolver) or every >=2-edge path is strictly dearer than the direct input edge; for type-only parameters every path through a function vertex costs more than the direct typed route; inputs overwrite the coinciding requirement vertex and hang off the root; path selection uses Dijkstra from the root on the reverse of the same graph; every supplied/generated converter is registered; every vertex added to a call's graph is freshly allocated; removing a vertex leaves no dangling in-edge; a requirement that needs no path is bound to its value before anything can overwrite the shared vertex and only to the value of its own vertex; a nil value in a multi-value option skips only itself; the option list a call applies is its own private list (defaults, then call options). Not decided: which of two equal-cost exact type-only candidates is taken.",
          "Sound lower-bound argument: every tentative distance Dijkstra holds is the length of a real path. Trusted: go/ssa constant folding of weights.", "§4 PRIO/INPUT/EDGE-V/MIRROR-REMOVE/BIND/OPTORDER, §5 C03"),
  "C04": ("static analysis: Result typestate (Err()==nil dominance), error-identity taint rule, final-error predicate agreement",
          "Decided: after each converter execution the result's error is checked and returned unchanged before anything else runs; error values on the chain are only returned/stored/boxed, never wrapped; the target executes only on the nil branch; the final-error predicate is type identity at the last position everywhere and Result.Err reports the final output as the error under exactly the reviewed conditions (a typed-nil error is still an error); no per-call cache of converter results.", "Trusted: reflect.Value.Call, go/ssa.", "§4 ERRFLOW/ERRPRED/EXEC-X7, §5 C04"),
  "C05": ("static analysis: five necessary structural conditions (chaining edge class, pruning guard, path search pairing, argument-map plumbing, in-progress-set stack discipline)",
-         "Necessary structural conditions of chaining only (chaining and implements edge classes present and unrestricted, every converter registered, pruning guard, path search pairing on a per-parameter private copy, argument-map plumbing, in-progress-set stack discipline); completeness of chaining and outcome stability over map order are NOT decided (no sound static argument in reach bounds reachability in a runtime-built graph or randomized iteration).", "Each clause is a genuine necessary condition: breaking it breaks chaining for some well-behaved converter set.", "§5 C05"),
+         "Necessary structural conditions of chaining only (chaining and implements edge classes present and unrestricted, every converter registered, a function vertex hangs off the root only when it has no inputs, pruning guard, path search pairing on a per-parameter private copy, argument-map plumbing, in-progress-set stack discipline); completeness of chaining and outcome stability over map order are NOT decided (no sound static argument in reach bounds reachability in a runtime-built graph or randomized iteration).", "Each clause is a genuine necessary condition: breaking it breaks chaining for some well-behaved converter set.", "§5 C05"),
  "C06": ("static analysis: reachable-panic audit, compiler-unproven bounds checks justified by guards/loop bounds/reviewed length invariants, reflect.Value validity typestate, positional packing agreement, StructOf name uniqueness, termination witnesses",
-         "Decided: every explicit panic reachable from Call/Convert/Redefine is discharged mechanically or by a reviewed invariant table; reflect.Value methods on API inputs are dominated by IsValid; nil options are rejected; slices indexed by struct-field ordinal are sized by the value list; dynamic struct field names are unique; every recursive SCC carries a visited/in-progress witness and every loop is regular or in the reviewed table; Dijkstra's predecessor map is only written together with a lowered distance on unsettled vertices (acyclic walk); vertex values are assigned only under validity/assignability guards; Remove leaves no dangling edge; every index or slice expression the Go compiler cannot prove in range is bounded by a dominating guard, a loop bound, its construction or a reviewed length invariant of where the slice comes from (BOUNDS); every *Func entering a converter list is non-nil (NILOPT-F). Not decided: panics raised inside reflect for other reasons, exhaustion by sheer size.",
+         "Decided: every explicit panic reachable from Call/Convert/Redefine is discharged mechanically or by a reviewed invariant table; reflect.Value methods on API inputs are dominated by IsValid; nil options are rejected; slices indexed by struct-field ordinal are sized by the value list; dynamic struct field names are unique; every recursive SCC carries a visited/in-progress witness and every loop is regular or in the reviewed table; Dijkstra's predecessor map is only written together with a lowered distance on unsettled vertices (acyclic walk); vertex values are assigned only under validity/assignability guards; Remove leaves no dangling edge; every index or slice expression the Go compiler cannot prove in range is bounded by a dominating guard, a loop bound, its construction or a reviewed length invariant of where the slice comes from (BOUNDS); every *Func entering a converter list is non-nil (NILOPT-F); the planner's zero stand-in renders results with the pointer-depth-aware packer (EXEC-X3). Not decided: panics raised inside reflect for other reasons, exhaustion by sheer size.",
          "Trusted: reflect, hclog; reviewed invariant tables are listed in the checker source with one reason each.", "§4 PANIC/BOUNDS/REFLVALID/NILOPT/NILOPT-F/PACK/STRUCTOF/TERM, §5 C06"),
  "C07": ("static analysis: weight-order and discount-loop rules over the extracted edge table",
-         "Decided clauses: the matching-name discount is negative and strictly below every other in-edge weight, applied only to in-edges of same-named value vertices, on a private copy of the graph, and the named requirement edge is cheaper than the typed route; converter results are not cached across positions of one call; requirements that already carry a value are bound when classified (not re-read after sibling paths ran). Not decided: optimality of Dijkstra under a negative edge, tie-breaking.", "Trusted: go/ssa constant folding.", "§4 PRIO-W/D/P, §5 C07"),
+         "Decided clauses: the matching-name discount is negative and strictly below every other in-edge weight, applied only to in-edges of same-named value vertices, on a private copy of the graph, and the named requirement edge is cheaper than the typed route; converter results are not cached across positions of one call; requirements that already carry a value are bound when classified (not re-read after sibling paths ran); a named requirement is used directly only when it is a supplied value hanging off the root (a walk by-product is re-resolved under the parameter's own name). Not decided: optimality of Dijkstra under a negative edge, tie-breaking.", "Trusted: go/ssa constant folding.", "§4 PRIO-W/D/P/N, BIND, §5 C07"),
  "C08": ("static analysis: must-pass-edge gating of redefine root edges, input-set provenance, exclusion key-space agreement, output-filter error flow",
-         "Decided clauses: the redefine-only root edge is gated by the input filter; only path inputs are recorded in the input set; struct fields are appended only for entries not supplied; rejected outputs return an error before planning; the generated function forwards options and declared inputs to Call. Not decided: that the planning run visits exactly the inputs a real call would use; result equality.", "Known finding D12 (typed supplied inputs use a different hash namespace).", "§4 REDEF, §5 C08"),
+         "Decided clauses: the redefine-only root edge is gated by the input filter; only path inputs are recorded in the input set; struct fields are appended only for entries not supplied; rejected outputs return an error before planning and no successful return of Redefine bypasses that validation; the generated function forwards options and declared inputs to Call. Not decided: that the planning run visits exactly the inputs a real call would use; result equality.", "Known finding D12 (typed supplied inputs use a different hash namespace).", "§4 REDEF, §5 C08"),
  "C09": ("static analysis: who-may-call audit of reflect.Value.Call, must-pass zeroing loop before the planning resolver call, whole-program shared-write audit",
          "Decided for all interleavings: user functions execute only in the executor; in the planning function every func vertex is replaced by a fresh copy with a zero-producing body before the resolver runs; that body calls no user code; nothing reachable from the original functions is written.", "Trusted: reflect.MakeFunc, go/ssa.", "§4 EXEC/SHARED/ALIAS, §5 C09"),
  "C10": ("static analysis: structural identity of Convert with Call on a synthesized identity function",
          "Decided: Convert's only in-package callee builds func(T) T whose body returns its parameter, calls Call with its own options unmodified, checks Err() before reading outputs, returns (nil, err) on error. Convert has no resolution logic of its own.", "Trusted: reflect.FuncOf/MakeFunc.", "§4 CONVERT, §5 C10"),
  "C11": ("static analysis: dominance rules around the memoized call, alias rule on Result.out, shared-write audit",
-         "Sequential clause decided structurally (the call is dominated by not(once and cached); under once the store post-dominates the call; the cache is never modified; the memo is read by the executor only and Call never returns it ahead of resolution). The concurrent clause is decided negatively: the cache is an unsynchronised shared write (known finding D9).", "Known finding D9.", "§4 ONCE/ALIAS/SHARED, §5 C11"),
+         "Sequential clause decided structurally (the call is dominated by not(once and cached); under once the store post-dominates the call; the cache is never modified; the memo is read by the executor only and Call never returns it ahead of resolution; the wrapped function is invoked at a single site; a Func is never copied by value outside the planner's stand-in step, so the memo cannot fork). The concurrent clause is decided negatively: the cache is an unsynchronised shared write (known finding D9).", "Known finding D9.", "§4 ONCE/ALIAS/SHARED, §5 C11"),
  "C12": ("static analysis: exhaustive store audit over both packages with ownership classes",
          "Decided for all interleavings at once: every store/map update/delete in both packages is classified by owner; writes to shared owners (Func, ValueSet, captured variables of option closures, globals) occur only on objects fresh in the writing function (or in the private helper of the constructing function); no field of a shared object is handed by address to external code (pools, atomics); package variables are only read after init. Outcome-equivalence with a sequential run follows only because all post-construction state is per-call.", "Known finding D9 (Func.onceResult). Trusted: hclog and reflect are thread-safe.", "§4 SHARED/IMMUT, §5 C12"),
  "C13": ("static analysis: dataflow from requirement/input/converter lists into the error literal and its rendering",
          "Decided: missing arguments are exactly the requirement vertices no longer in the pruned graph; the input list converts every input vertex; the error literal stores Func, Args, Inputs and Converters (the slice that received every supplied and generated converter); Error() renders every missing argument into the returned message (interprocedural may-flow); Call cannot return a stale success ahead of resolution. Not decided: 'genuinely underivable' beyond 'pruned from the graph'.", "Trusted: go/ssa.", "§4 UNSAT, §5 C13"),
  "C14": ("static analysis: lower-casing dataflow, final-error predicate, validity typestate, tag writer/reader agreement, rejection error paths",
-         "Decided clauses: names are always lower-cased; final error excluded by type identity at the last position; non-function/nil values rejected with an error; tag namespace and option keys agree between writers and the reader; documented rejections return errors. Not decided: declaration order, tag parsing details, unexported-field skipping.", "Trusted: reflect.", "§4 LOWER/ERRPRED/REFLVALID/TAGS, §5 C14"),
+         "Decided clauses: names are always lower-cased; final error excluded by type identity at the last position; non-function/nil values rejected with an error; tag namespace and option keys agree between writers and the reader; documented rejections return errors; the input set is built over exactly NumIn() positions and the output set over NumOut() less only the final error. Not decided: declaration order, tag parsing details, unexported-field skipping.", "Trusted: reflect.", "§4 LOWER/ERRPRED/REFLVALID/TAGS, §5 C14"),
  "C15": ("static analysis: positional packing agreement across the five packing sites, tag agreement, adapter error plumbing",
          "Decided clauses: slices indexed by field ordinal are sized by and filled from the ordered value list; tag writers and reader agree; FromSignature cannot fail; the adapter appends the callback's error as the final result; value-set accessors scan/look up by the value's own label; no value set or parsed struct is cached in package state; Signature, SignatureValues and FromSignature treat the set as empty under the same test (sibling agreement). Not decided: value equality through reflect, lookup semantics of Typed/TypedSubtype.", "Trusted: reflect.", "§4 PACK/TAGS, §5 C15"),
  "C16": ("static analysis: lower-casing dataflow, option-order recogniser, nil-option and nil-value guards",
-         "Decided: keys of the builder's named maps are ToLower results; defaults precede call options in the slice handed to the applier which iterates in increasing order; nil options return an error; nil values are ignored; accumulation is plain map assignment; an invalid (nil) value in a multi-value option skips only itself. Not decided: permutation invariance beyond map semantics and C03.", "Trusted: Go map semantics.", "§4 LOWER/OPTORDER/NILOPT, §5 C16"),
+         "Decided: keys of the builder's named maps are ToLower results; defaults precede call options in the slice handed to the applier which iterates in increasing order; nil options return an error; nil values are ignored; accumulation is plain map assignment; an invalid (nil) value in a multi-value option skips only itself; Call returns the executor's Result only behind the nil-error branch of option merging (no shortcut skips the rejection of a nil option). Not decided: permutation invariance beyond map semantics and C03.", "Trusted: Go map semantics.", "§4 LOWER/OPTORDER/NILOPT/ERRFLOW-E3/E6, §5 C16"),
  "C17": ("static analysis: final-error predicate agreement, Result literal discipline, Len/Out arithmetic",
          "Decided: every comparison against the error type is type identity at index len-1; every Result construction sets exactly one of out/buildErr; Len = len(out) minus one iff hasError; Out(i) indexes out with i; Err reports the final output under exactly the reviewed conditions; Call returns the executor's Result unmodified; a memoised Result is exactly the Result of the function's own first execution and cannot be written through the planner's copy.", "Trusted: reflect.", "§4 ERRPRED/RESULTLIT/LEN, §5 C17"),
  "C18": ("static analysis: heap-position bookkeeping and relaxation pairing rules on Dijkstra",
